@@ -13,6 +13,7 @@ mod gsgen;
 mod ops;
 mod up;
 mod ex;
+mod abi;
 
 use common::*;
 use std::io::Write;
@@ -45,6 +46,11 @@ impl World for ex::ExWorld {
         ex::ExWorld::exec(self, toks)
     }
 }
+impl World for abi::AbiWorld {
+    fn exec(&mut self, toks: &[&str]) -> (String, String) {
+        abi::AbiWorld::exec(self, toks)
+    }
+}
 impl World for gw::GwWorld {
     fn exec(&mut self, toks: &[&str]) -> (String, String) {
         gw::GwWorld::exec(self, toks)
@@ -59,6 +65,7 @@ pub fn new_world(cluster: &str) -> Box<dyn World> {
         "op" => Box::new(ops::OpsWorld::new()),
         "up" => Box::new(up::UpWorld::new()),
         "ex" => Box::new(ex::ExWorld::new()),
+        "abi" => Box::new(abi::AbiWorld::new()),
         other => panic!("unknown cluster {other}"),
     }
 }
@@ -122,6 +129,7 @@ fn main() {
                 "C17" => ops::gen_c17(&mut run, seed, thorough),
                 "C15" => up::gen_c15(&mut run, seed, thorough),
                 "C16" => ex::gen_c16(&mut run, seed, thorough),
+                "C10" => abi::gen_c10(&mut run, seed, thorough),
                 other => {
                     eprintln!("no generator for {other}");
                     std::process::exit(2);
